@@ -262,6 +262,8 @@ class Site:
         self.benign_absent = None
         self.kinds = []          # other element kinds (prefixed tags) the site's identifier query can return
         self.needs_stored = _mentions(look.__code__, "stored")    # the lookup is a method of the stored object
+        # syntaxes (beyond the XPath literal and the XML attribute, exercised everywhere) the identifier is embedded in
+        self.syntaxes = ("cell-range-address",) if host == "doc-tables-ranges" else ()
 
 
 def build_sites(o):
@@ -933,6 +935,32 @@ EDGE = ['"', "'", '""', "''", '"\'', '\'"', '"\'"', '\'"\'', '"abc', 'abc"', "'a
         'text()', 'a"b"c\'d\'e', '\'"\'"', '"a"', "'a'", '"a\'b"', 'a\\"b', "a\\'b\"", 'Tab le', 'x="y"', "x='y'", 'true', 'false', 'True', 'R&D net', 'Sheet1', 'Table 1 (2024)', 'a b c']
 
 
+# Delimiter sequences of every syntax an identifier is embedded in on its way to storage / lookup.  XPath literals and XML
+# attribute values are covered by EDGE / RICH at every site; a table name is also embedded in the cell-range address of the named
+# ranges that point to it ($'name'.$A$1:.$B$2 : quoted by apostrophes, inner apostrophe doubled, '.' ends the name, '$' and ':'
+# belong to the range part).
+SYNTAX_DELIMS = {
+    "xpath-literal": ['"', "'", '",', "concat("],
+    "xml-attribute": ['"', "&", "<", "&quot;"],
+    "cell-range-address": ["'.", "''", ".$", ":", "$", ".", "'", "'.$", "''.", "$'", ":.", "'.'", ".'", "$.", "!"],
+}
+
+
+def delimiter_idents(syntaxes):
+    """each delimiter sequence at the start, in the middle and at the end of an identifier, alone, twice, and two different ones"""
+    out = []
+    for syn in syntaxes:
+        ds = SYNTAX_DELIMS[syn]
+        for k, d in enumerate(ds):
+            d2 = ds[(k + 1) % len(ds)]
+            out += [d + "x", "x" + d + "y", "x" + d, d, "x" + d + "y" + d + "z", "files " + d + "csv" + d2 + " only"]
+    seen, res = set(), []
+    for i in out:
+        if i not in seen:
+            seen.add(i); res.append(i)
+    return res
+
+
 def gen_idents(rng, n_random, n_long=2):
     out = list(EDGE)
     for _ in range(n_random):
@@ -1306,6 +1334,8 @@ def run(tier, seed, replay=None):
             if s.main and (not quick or s.key in ("get_table/name", "get_bookmark", "Manifest.get_media_type", "get_reference_mark/single",
                                                    "ReferenceMarkStart.referenced_text", "get_between/bookmarks")):
                 ids = small + ids; exhaustive_n += len(small)
+            # the delimiter sequences of the site's own syntaxes at start / middle / end of the identifier: never subsampled
+            ids = ids + [i for i in delimiter_idents(s.syntaxes) if i not in ids]
             ids = ["true", "false"] + [i for i in ids if i not in ("true", "false")]     # the boolean words go through every site
             for n_i, i in enumerate(ids):
                 v = rng.randrange(1000)
